@@ -58,6 +58,38 @@ def iir_of(c):
 MODES = ['positive', 'negative', 'both']
 MATRIX = np.array([[1.0, -1.0], [0.25, 1.5]])
 META = {'m': 1}
+# metadata values need not be plain numbers or strings: a multi-element array (per-channel gains) and an object without
+# __eq__ compare equal only by identity -- `mdobj` cases carry both, the very same objects on every chunk
+GAIN = np.array([1.0, 2.5])
+
+
+class _Tag:
+    pass
+
+
+TAG = _Tag()
+
+
+def case_meta(c):
+    return dict(META, gain=GAIN, tag=TAG) if c.get('mdobj') else dict(META)
+
+
+def md_eq(md, want):
+    """dict equality that compares array / object values by identity or element-wise"""
+    if not isinstance(md, dict) or set(md) != set(want):
+        return False
+    for k, v in want.items():
+        w = md[k]
+        if w is v:
+            continue
+        if isinstance(v, np.ndarray) or isinstance(w, np.ndarray):
+            if not (isinstance(v, np.ndarray) and isinstance(w, np.ndarray) and np.array_equal(v, w)):
+                return False
+        elif isinstance(v, _Tag) or isinstance(w, _Tag):
+            return False            # a Tag has no value: another Tag object is not "the same metadata"
+        elif w != v:
+            return False
+    return True
 INIT = 0.5
 TOL = 1e-12
 
@@ -294,8 +326,9 @@ class C12(Spec):
         'mc_reference needs 2-D data; iirfilter needs a non-empty first chunk; block sizes / factors are >= 1',
         'rms: annotated input starts at a multiple of the block length (s0/n is a true division in the code)',
         'event_rate: every event lies inside the span of the Events object that carries it (listed in any order), one sampling rate',
-        'the Ellipsis restart signal of blocked/discard must be forwarded to the target; the stream that follows is a new input stream '
-        '(the model starts a fresh stage; the Lean step functions do not contain the Ellipsis branch)',
+        'the Ellipsis restart signal of blocked/discard must be forwarded to the target exactly once; the stream that follows is a new '
+        'input stream and must be processed as by a freshly created stage (the model runs its own Ellipsis branch on the carried state: '
+        'blockedStepE / discardStepE; theorems blocked_restart_like_fresh / discard_restart_like_fresh)',
         'not demanded (fail on the unchanged library, reported in notes/C12.md, generated with VERIF_PENDING=1 only): the caller may overwrite '
         'a chunk after send() (blocked, downsample, rms, auto_th keep references into it); auto_th adding its threshold to the metadata of the chunk it was sent',
     ]
@@ -340,6 +373,8 @@ class C12(Spec):
         if stage == 'rms' and s0 % max(p1, 1):
             s0 = (s0 // max(p1, 1)) * max(p1, 1)
         c = {'kind': stage, 'arr': arr, 'N': n, 'chunks': list(chunks), 'p1': p1, 'p2': p2, 's0': s0, 'seed': seed}
+        if arr.startswith('pd') and seed % 5 == 4:
+            c['mdobj'] = True
         if seed % 7 in (1, 2, 3) and n > 9:      # random-stream cases only (the exhaustive scope keeps float64)
             c['dtype'] = {1: 'int32', 2: 'int32', 3: 'float32'}[seed % 7]
             if c['dtype'] == 'int32' and stage in ('rms', 'derivative', 'auto_th'):
@@ -635,7 +670,13 @@ class C12(Spec):
         if c['kind'] == 'dual':
             return self.model_lines(c['a']) + self.model_lines(c['b'])
         if c.get('segs'):
-            return [l for sg in self._segments(c) for l in self.model_lines(sg)]
+            # the Ellipsis signal goes through the model's restart branch (blockedStepE / discardStepE): the stage state is
+            # carried over, not re-created; the stream that follows starts at its own s0
+            lines = []
+            for i, sg in enumerate(self._segments(c)):
+                ls = self.model_lines(sg)
+                lines += ([f"restart {sg['s0']}"] + ls[1:]) if i else ls
+            return lines
         if c['kind'] == 'event_rate':
             lines = [f"new event_rate 1 1 {c['s0']} {c['p1']} {c['p2']}"]
             pos = c['s0']
@@ -718,9 +759,10 @@ class C12(Spec):
         else:
             ch = 'ch?'
         md = o.metadata
-        if md == META:
+        want = case_meta(c)
+        if md_eq(md, want):
             mdt = 'md'
-        elif isinstance(md, dict) and 'auto_th' in md and {k: v for k, v in md.items() if k != 'auto_th'} == META:
+        elif isinstance(md, dict) and 'auto_th' in md and md_eq({k: v for k, v in md.items() if k != 'auto_th'}, want):
             mdt = 'md+th'
         elif md == {}:
             mdt = 'mdempty'
@@ -745,7 +787,7 @@ class C12(Spec):
         annotated = c['arr'].startswith('pd')
         if annotated:
             s0 = np.int64(c['s0']) if rep_of(c).get('s0np') else c['s0']
-            xs = P.PipelineData(x, fs_of(c), s0=s0, channel=in_channel(c), metadata=dict(META))
+            xs = P.PipelineData(x, fs_of(c), s0=s0, channel=in_channel(c), metadata=case_meta(c))
         else:
             xs = x
         chunks, pos, shift = [], 0, 0
